@@ -36,7 +36,7 @@ func runC07(c *ev.Ctx) {
 		"distinct = (alpha pattern, AComp, AFilt, AQ, method, size bucket, ALPH header byte actually emitted, VP8L transform signature of the alpha stream)"
 	lwOK := lw.SelfTest() == nil
 	aqs := []int{-1, 100, 100, 0, 1, 35, 70, 71, 99}
-	n := c.N(3000, 50000)
+	n := c.N(12000, 1500000)
 	var cases []ev.Case
 	for i := 0; i < n; i++ {
 		r := rng(c, i)
@@ -47,7 +47,7 @@ func runC07(c *ev.Ctx) {
 			Method: (i / (len(img.Alphas) * 12)) % 7,
 			AQ:     aqs[r.Intn(len(aqs))],
 			Class:  img.Pick(r, img.Classes), Quality: pickF(r, 0, 50, 75, 100), Exact: r.Intn(3) == 0,
-			Type: pickS(r, "NRGBA", "NRGBA", "NRGBA", "RGBA", "NRGBA64", "Wrapper", "Alpha", "NYCbCrA"),
+			Type: pickS(r, "NRGBA", "NRGBA", "RGBA", "NRGBA64", "Wrapper", "Alpha", "NYCbCrA", "Paletted", "RGBA64", "Alpha16"),
 		}
 		switch r.Intn(3) {
 		case 0:
@@ -69,6 +69,9 @@ func c07One(c *ev.Ctx, cs ev.Case, lwOK bool) {
 	cc := cs.Data.(c07Case)
 	r := rng(c, cs.Idx+1<<20)
 	base := img.Gen(r, cc.Class, cc.Alpha, cc.W, cc.H)
+	if r.Intn(3) == 0 { // non-zero origin (crops, GIF frame rectangles): every source type inherits it
+		base = img.Shift(base, r.Intn(40)-10, r.Intn(40)-10)
+	}
 	src := img.AsType(r, base, cc.Type)
 	want := img.ToNRGBA(src)
 	srcAlpha := img.HasAlpha(want)
